@@ -791,7 +791,7 @@ func a4(w *World, r *Report) {
 				return nm
 			case "RevertToSnapshot":
 				_, a := callRecvArgs(c.Common())
-				if len(a) == 1 && sameValue(a[0], snap) {
+				if len(a) == 1 && (sameValue(a[0], snap) || w.Canon(a[0]) == w.Canon(snap)) {
 					return "Revert(snap)"
 				}
 				return "Revert(other)"
@@ -834,7 +834,7 @@ func a4(w *World, r *Report) {
 			}
 		}
 	}
-	r.Check(bad == "" && nFail >= 2 && nOK >= 1, "A-4", "ExecuteTrx:snapshot-revert-finish", fmt.Sprintf("%d failure exits revert to the pre-transaction snapshot and then sync out; %d success exits sync out once without revert", nFail, nOK), "EVM failure handling does not revert to the snapshot taken before the transaction: "+bad, fnSite(w, fn))
+	r.Check(bad == "" && nFail >= 1 && nOK >= 1, "A-4", "ExecuteTrx:snapshot-revert-finish", fmt.Sprintf("%d failure exits revert to the pre-transaction snapshot and then sync out; %d success exits sync out once without revert", nFail, nOK), "EVM failure handling does not revert to the snapshot taken before the transaction: "+bad, fnSite(w, fn))
 	// the post-Finish error exit (marking the created contract account) is dead
 	okDead := true
 	for _, c := range CallsIn(fn) {
